@@ -2,6 +2,8 @@
 from .. import cfg as C
 from .. import linear as L
 from ..terms import Terms, norm, fmt, walk, field_of
+from ..inline import inline, local_picker
+from ..facts import type_head
 from .common import *
 from .qmodel import *
 from .qmodel import _path_has_field
@@ -134,6 +136,10 @@ def rule_one_consumer(m, rep, rid='R2', parts=('receiver', 'callers')):
     # who calls run / the spawn function
     run_callers = [(b, bi) for b in cad.all_bodies for bi, t in b.calls() if t.get('resolved') == m.run.path]
     okr = len(run_callers) == 1 and run_callers[0][0].path == m.spawn_closure.path
+    if not okr and len(run_callers) == 1 and getattr(m, 'run_caller', None) is not None and run_callers[0][0].path == m.run_caller.path:
+        # run() is entered through a private function whose only caller is the spawned closure
+        via = [b.path for b in cad.all_bodies for bi, t in b.calls() if t.get('resolved') == m.run_caller.path]
+        okr = via == [m.spawn_closure.path]
     rep.ob(rid, 'run-called-only-on-spawned-thread', okr, run_callers[0][0].where(run_callers[0][1]) if run_callers else '',
            'run() is called only from the closure given to thread::spawn' if okr else
            'run() is called from %s' % [b.short() for b, _ in run_callers])
@@ -399,6 +405,22 @@ def _capture_ty(b, name):
 
 
 # ------------------------------------------------------------------ C08-R6 same channel
+def _nested_get(adt_term, name, depth=0):
+    """value of the (possibly nested) field `name` in an aggregate term"""
+    if adt_term[0] != 'adt' or depth > 3:
+        return None
+    fs = dict(adt_term[3])
+    if name in fs:
+        return fs[name]
+    for v in fs.values():
+        v = norm(v)
+        if v[0] == 'adt':
+            r = _nested_get(v, name, depth + 1)
+            if r is not None:
+                return r
+    return None
+
+
 def rule_same_channel(m, rep, rid='R6'):
     news = m.cad.method(m.worker, 'new')
     b = one(rep, rid, 'worker constructor', news)
@@ -413,7 +435,7 @@ def rule_same_channel(m, rep, rid='R6'):
         r = list(rts)[0]
         if r[0] == 'adt' and r[1] == m.worker:
             fs = dict(r[3])
-            s, rc = fs.get(m.f_sender), fs.get(m.f_receiver)
+            s, rc = _nested_get(r, m.f_sender), _nested_get(r, m.f_receiver)
             if s and rc and s[0] == 'field' and rc[0] == 'field' and s[1] == rc[1] and s[2] == 0 and rc[2] == 1:
                 srcs = flatten_phi(s[1])
                 ok = all(x[0] == 'call' and (x[1].endswith('crossbeam_channel::channel::bounded') or
@@ -615,11 +637,22 @@ def rule_isolation(m, rep, rid='R1'):
 def rule_counters(m, rep):
     cad = m.cad
     ops = []
+    # a counter may be a private newtype around the atomic: its methods are analysed where they are applied to a counter
+    wrappers = set()
+    for f in adt_fields(cad, m.stats_adt):
+        if f['name'] in m.counters.values() and type_head(f['ty']) in cad.adts:
+            wrappers.add(type_head(f['ty']))
     for b in cad.all_bodies:
         if not b.file.endswith('queuing.rs'):
             continue
+        if wrappers:
+            if b.impl_self and type_head(b.impl_self) in wrappers:
+                continue
+            b = inline(cad, b, local_picker(cad, only=lambda x: bool(x.impl_self) and type_head(x.impl_self) in wrappers))
         T = None
         for bi, t in b.calls():
+            if b.blocks[bi].get('dead'):
+                continue
             if not callee_is(t, 'core::sync::atomic::Atomic::fetch_add', 'core::sync::atomic::Atomic::store',
                              'core::sync::atomic::Atomic::fetch_sub', 'core::sync::atomic::Atomic::swap',
                              'core::sync::atomic::Atomic::compare_exchange', 'core::sync::atomic::Atomic::fetch_update',
@@ -630,13 +663,8 @@ def rule_counters(m, rep):
             if T is None:
                 T = Terms(b)
             ct = norm(T.call_term(bi))
-            loc = peel(ct[2][0])
-            if loc[0] == 'load':
-                loc = loc[1]
-            if loc[0] != 'field':
-                continue
             for cname, fld in m.counters.items():
-                if loc[2] == fld and _path_ends_in_stats(loc, m):
+                if _path_has_field(ct[2][0], fld):
                     ops.append((cname, b, bi, ct))
     rep.floor('C15-R3', 'writes to the three counters', len(ops), 3)
     for cname, b, bi, ct in ops:
@@ -671,10 +699,9 @@ def rule_counters(m, rep):
         def atom(t):
             t = norm(t)
             if term_callee_is(t, 'core::sync::atomic::Atomic::load'):
-                loc = peel(t[2][0])
-                if loc[0] == 'field' and loc[2] == m.counters['submitted']:
+                if _path_has_field(t[2][0], m.counters['submitted']):
                     return 'S'
-                if loc[0] == 'field' and loc[2] == m.counters['drained']:
+                if _path_has_field(t[2][0], m.counters['drained']):
                     return 'D'
             return None
         for bi, si in raw:
@@ -733,6 +760,8 @@ def rule_counters(m, rep):
         ok = False
 
         def zero(v):
+            if v is not None and v[0] == 'adt' and len(v[3]) == 1 and v[1] in wrappers:
+                return zero(norm(v[3][0][1]))
             return v is not None and ((term_callee_is(v, 'core::sync::atomic::Atomic::new') and v[2][0] == ('const', 'u64', '0', None))
                                       or term_callee_is(v, '<core::sync::atomic::Atomic as core::default::Default>::default'))
         if len(rts) == 1 and list(rts)[0][0] == 'adt':
